@@ -99,6 +99,7 @@ type Server struct {
 	Tokens map[string]int64 // token -> user id
 
 	mu    sync.Mutex
+	hmu   sync.Mutex
 	calls []Call
 	seq   atomic.Int64
 }
@@ -185,7 +186,16 @@ func (s *Server) intercept(ctx context.Context, req any, info *grpc.UnaryServerI
 	s.mu.Lock()
 	s.calls = append(s.calls, c)
 	s.mu.Unlock()
-	return handler(ctx, req)
+	// The example service hands its live statistics maps to the Stats/Reset responses, which grpc marshals after
+	// the handler returned while other handlers update them (a race inside the TARGET, answered with code 500).
+	// Handlers are serialised and such responses copied so that the target's replies are deterministic.
+	s.hmu.Lock()
+	defer s.hmu.Unlock()
+	resp, err := handler(ctx, req)
+	if pm, ok := resp.(proto.Message); ok && err == nil && (strings.HasSuffix(info.FullMethod, "/Stats") || strings.HasSuffix(info.FullMethod, "/Reset")) {
+		resp = proto.Clone(pm)
+	}
+	return resp, err
 }
 
 // Calls returns the calls recorded so far (arrival order).
